@@ -110,6 +110,9 @@ class NestedPayload(Packer):
         """
         size, = unpack_from(">H", data, offset)
         offset += 2
+        if offset + size > len(data):
+            msg = f"Nested payload of length {size} exceeds the {len(data) - offset} bytes left in the buffer"
+            raise PackError(msg)
         serializable_class = args[0]
         unpacked, _ = self.serializer.unpack_serializable(serializable_class, data[offset:offset + size])
         unpack_list.append(unpacked)
@@ -201,8 +204,12 @@ class VarLen(Packer):
         Unpack from VarLen packed data.
         """
         str_length = unpack_from(self.length_format, data, offset)[0] * self.base
-        unpack_list.append(data[offset + self.length_size: offset + self.length_size + str_length])
-        return offset + self.length_size + str_length
+        end = offset + self.length_size + str_length
+        if end > len(data):
+            msg = f"Declared length {str_length} exceeds the {len(data) - offset - self.length_size} bytes left in the buffer"
+            raise PackError(msg)
+        unpack_list.append(data[offset + self.length_size: end])
+        return end
 
 
 class VarLenUtf8(VarLen):
@@ -360,10 +367,14 @@ class DefaultArray(Packer):
         Unpack a list of items from the known ``array`` format.
         """
         str_length = unpack_from(self.length_format, data, offset)[0] * self.base
+        end = offset + self.length_size + str_length
+        if end > len(data):
+            msg = f"Declared length {str_length} exceeds the {len(data) - offset - self.length_size} bytes left in the buffer"
+            raise PackError(msg)
         a = array(self.real_format_str)
-        a.frombytes(data[offset + self.length_size: offset + self.length_size + str_length])
+        a.frombytes(data[offset + self.length_size: end])
         unpack_list.append([bool(b) for b in a] if self.format_str == "?" else list(a))
-        return offset + self.length_size + str_length
+        return end
 
 
 class DefaultStruct(Packer):
